@@ -25,8 +25,10 @@ KindOf(sel, f) == IF sel = "CheckDep" THEN DepFieldKind[f] ELSE FieldKind[f]
 NestedField == "inner.name"
 FieldNames == DOMAIN FieldKind \cup {NestedField}
 
-VARIABLES settings, stage, outcome
-vars == <<settings, stage, outcome>>
+\* layout: where the services live - in the API package itself ("root") or, every one of them, in a proto sub-package of it
+\* ("sub": pkg.v1.services.Things; the Google Ads layout).  The rules do not mention it: the outcome must not depend on it.
+VARIABLES settings, stage, outcome, layout
+vars == <<settings, stage, outcome, layout>>
 
 FieldSets == {{}} \cup {{f} : f \in FieldNames} \cup {{"request_id", f} : f \in FieldNames \ {"request_id"}}
 Entries == [selector : Selectors, fields : FieldSets]
@@ -37,6 +39,7 @@ Init == /\ settings \in {<<>>} \cup {<<e>> : e \in Entries}
                       \cup {<<e1, e2>> : e1 \in {e \in Entries : e.fields \subseteq {"request_id"}}, e2 \in {e \in Entries : Cardinality(e.fields) <= 1}}
                       \cup {<<e1, e2, e3>> : e1 \in Plain, e2 \in Plain, e3 \in Plain}
         /\ stage = "loaded" /\ outcome = "pending"
+        /\ layout \in IF Len(settings) = 2 THEN {"root"} ELSE {"root", "sub"}
 
 FieldOk(sel, f) == f # NestedField /\ KindOf(sel, f) = "ok"
 EntryOk(e) == MethodKind[e.selector] = "unary" /\ \A f \in e.fields : FieldOk(e.selector, f)
@@ -48,7 +51,7 @@ Valid(s) == NoDuplicates(s) /\ \A i \in 1..Len(s) : EntryValid(s[i])
 
 Validate == /\ stage = "loaded"
             /\ outcome' = IF Valid(settings) THEN "generated" ELSE "MethodSettingsError"
-            /\ stage' = "done" /\ UNCHANGED settings
+            /\ stage' = "done" /\ UNCHANGED <<settings, layout>>
 Next == Validate
 Spec == Init /\ [][Next]_vars /\ WF_vars(Next)
 
@@ -56,6 +59,6 @@ Inv_FailIffViolation == stage = "done" => (outcome = "generated" <=> Valid(setti
 Inv_SingleViolationFails == stage = "done" /\ Len(settings) = 1 /\ settings[1].fields # {} /\ ~EntryOk(settings[1]) => outcome # "generated"
 Live == <>(stage = "done")
 Case == [settings |-> [i \in 1..Len(settings) |-> [selector |-> settings[i].selector, fields |-> SetToSeq(settings[i].fields)]],
-         expect |-> outcome]
+         layout |-> layout, expect |-> outcome]
 Emit == stage = "done" => PrintT(<<"CASE", ToJson(Case)>>)
 =============================================================================
